@@ -102,6 +102,12 @@ def direct(case):
         a.reset_NE_balance()
         req = a.NE_balance.kcals
         rum = rnd.random() < 0.6
+        # a fifth of the calls leave the flag out: the documented default is "not a ruminant", whatever the species
+        # (only for species that are not ruminants: for those the outcome "no grass" is the same whether the default is read as
+        # "not a ruminant" or as "what the species is")
+        omit = rnd.random() < 0.3 and a.digestion_type != "ruminant"
+        if omit:
+            rum = False
         eg, ef = a.digestion_efficiency["grass"], a.digestion_efficiency["feed"]
         mode = rnd.choice(["grass_exact", "grass_more", "grass_less_feed_exact", "both_short", "nothing", "feed_only_exact", "feed_only_short", "ample", "tiny_short"])
         if mode == "grass_exact":
@@ -126,12 +132,17 @@ def direct(case):
         G, F = Food(g, 0, 0), Food(f, 0, 0)
         herd._state["feed_calls"] = []
         try:
-            a.feed_the_species(G, F, is_ruminant=rum)
+            if omit:
+                a.feed_the_species(G, F)
+            else:
+                a.feed_the_species(G, F, is_ruminant=rum)
             rec = herd._state["feed_calls"][-1]
         finally:
             herd._state["feed_calls"] = None
-        branches[mode + ("/rum" if rum else "/mono")] += 1
-        where = "direct %s %s herd=%.1f %s ruminant=%s" % (case["iso"], a.animal_type, a.current_population, mode, rum)
+        branches[mode + ("/rum" if rum else ("/flag_omitted:" + str(a.digestion_type) if omit else "/mono"))] += 1
+        where = "direct %s %s herd=%.1f %s ruminant=%s" % (case["iso"], a.animal_type, a.current_population, mode, "flag omitted (%s)" % a.digestion_type if omit else rum)
+        if omit:
+            rec = dict(rec, rum=False)
         if e < 3:
             ex.append({k: rec[k] for k in ("type", "rum", "g0", "f0", "req", "herd", "g1", "f1", "bal", "fed")})
         for mech, msg in check_call(rec, where):
